@@ -55,6 +55,15 @@ type World struct {
 	Outputs   map[string]*HOutput // every output any harness actor ever created, by B_
 	OutOrder  []string
 	AllProofs []*HProof
+
+	yIndex   map[string]string
+	yIndexed int
+	keyCache map[string]*derivedKeyset
+	oracleKS map[string]map[string]*derivedKeyset
+	// CheckGenuine: the Book verifies every accepted input against the key oracle (C04)
+	CheckGenuine bool
+	// ShapeCheck: every exchange is validated against the NUT response shapes (C20)
+	ShapeCheck bool
 }
 
 func NewWorld(s *Sim, dir string, ln LNConfig) *World {
